@@ -25,8 +25,13 @@ func makerScenario(r *Run, seed int64, chain, typ, ending string, attach func(p 
 	// in two of three Bitcoin worlds both nodes use the real CLN wallet adapter (over the fake lightningd / bitcoind),
 	// with lightningd versions on both sides of the PSBT-version switch; otherwise the harness mirror of it
 	adapter, clnVer := "", ""
-	if chain == "btc" && seed%3 != 0 {
-		adapter, clnVer = "cln", []string{"v24.08", "v23.02", "v23.05", "v25.02"}[seed%4]
+	if chain == "btc" {
+		switch seed % 5 {
+		case 1, 2:
+			adapter, clnVer = "cln", []string{"v24.08", "v23.02", "v23.05", "v25.02"}[(seed/5)%4]
+		case 3, 4:
+			adapter = "lnd" // the real lnd wallet adapter over fakes of its two rpc interfaces
+		}
 	}
 	p := newPair(seed, pairOpts{chain: chain, typ: typ, cfgA: func(c *sim.NodeConfig) {
 		c.BtcAdapter, c.CLNVersion = adapter, clnVer
@@ -263,7 +268,7 @@ func TestC08(t *testing.T) {
 	r := newRun(t, "C08", "exploration")
 	defer r.Finish()
 	r.Rule = "one real two-node swap per (chain, swap type, wallet funding layout drawn from the seed: 1-5 inputs, swap output at index 0-2, 0-2 change outputs, fee output first/last on Liquid); monitor at every outgoing opening_tx_broadcasted compares tx id, script_out, invoice (amount, hash, expiry, cltv) and blinding key with the transaction the simulated wallet really broadcast. distinct = (chain, type, swap output index, #outputs, #inputs)"
-	r.Assumptions = []string{"Bitcoin wallet adapter: in two of three Bitcoin worlds the real clightning wallet methods (clightning_wallet.go) over a fake lightningd (txprepare/txsend/setpsbtversion/newaddr) and a fake bitcoind (sendrawtransaction), else the harness mirror of them over the real onchain.BitcoinOnChain helpers; the LND wallet adapter is not executed; Liquid uses the real LiquidOnChain over a simulated elementsd wallet", "go-elements UnblindOutputWithKey is the unblinding oracle"}
+	r.Assumptions = []string{"Bitcoin wallet adapter by world (seed mod 5): the real clightning wallet methods (clightning_wallet.go) over a fake lightningd (txprepare/txsend/setpsbtversion/newaddr) and a fake bitcoind (sendrawtransaction), the real lnd wallet methods (lnd_wallet.go) over fakes of the wallet-kit and lightning rpc interfaces, or the harness mirror of the CLN adapter over the real onchain.BitcoinOnChain helpers; Liquid uses the real LiquidOnChain over a simulated elementsd wallet", "go-elements UnblindOutputWithKey is the unblinding oracle"}
 	n := r.N(24, 600)
 	announced := 0
 	parallelDo(n, 12, func(i int) {
@@ -421,7 +426,7 @@ func TestC03(t *testing.T) {
 	r := newRun(t, "C03", "exploration")
 	defer r.Finish()
 	r.Rule = "real two-node swaps driven to each ending (preimage claim by the taker, cooperative claim after an injected payment failure, CSV refund after the taker died, CSV refund attempted one block early) × chain × swap type × wallet funding layout; every spending transaction handed to the chain simulator is judged by consensus script execution (btcd engine / template interpreter with Elements sighash), BIP68, and by the output/fee/ownership oracle. distinct = (chain, type, spend kind, accepted/rejected reason, spent output index)"
-	r.Assumptions = []string{"Bitcoin wallet adapter: in two of three Bitcoin worlds the real clightning wallet methods over a fake lightningd / bitcoind (lightningd versions v23.02, v23.05, v24.08, v25.02; native and P2SH-wrapped segwit funding coins), else the harness mirror of them over the real onchain.BitcoinOnChain helpers; the LND wallet adapter is not executed", "chain simulator enforces script validity (btcd engine; template interpreter for Liquid), BIP68 and range proofs"}
+	r.Assumptions = []string{"Bitcoin wallet adapter by world (seed mod 5): the real clightning wallet methods over a fake lightningd / bitcoind (lightningd versions v23.02, v23.05, v24.08, v25.02; native and P2SH-wrapped segwit funding coins), the real lnd wallet methods over fakes of the wallet-kit and lightning rpc interfaces, or the harness mirror of the CLN adapter over the real onchain.BitcoinOnChain helpers", "chain simulator enforces script validity (btcd engine; template interpreter for Liquid), BIP68 and range proofs"}
 	endings := []string{"preimage", "coop", "csv", "csv-early"}
 	n := r.N(128, 1280)
 	seen := map[string]int{}
